@@ -34,11 +34,32 @@ func NewKeepAlive[C Conn](maxRetries uint32, onInactive OnInactiveFunc[C], sendP
 type KeepAliveMonitor[C Conn] struct {
 	*Monitor[C]
 	keepAlive *KeepAlive[C]
+	// end of the last period that was reported to the keep-alive (time.Time)
+	lastReport atomic.Value
 }
 
 func (m *KeepAliveMonitor[C]) Notify() {
 	m.keepAlive.resetFails()
 	m.Monitor.Notify()
+}
+
+// CheckInactivity reports a period without a received message to the keep-alive and starts the next period: the
+// ping that the keep-alive sends now has a full period to be answered, however often the housekeeping looks in.
+// (Reporting at every look after the first period would count - and cancel - a ping per housekeeping interval:
+// a peer that answers every ping would be given up maxRetries intervals after the first ping.)
+func (m *KeepAliveMonitor[C]) CheckInactivity(now time.Time, cc C) {
+	if m.duration == time.Duration(0) {
+		return
+	}
+	start := m.LastActivity()
+	if t, ok := m.lastReport.Load().(time.Time); ok && t.After(start) {
+		start = t
+	}
+	if !now.After(start.Add(m.duration)) {
+		return
+	}
+	m.lastReport.Store(now)
+	m.keepAlive.OnInactive(cc)
 }
 
 // NewMonitor creates the inactivity monitor for the keep-alive.
